@@ -27,7 +27,7 @@ def main():
         was = meta.get('check_as_it_was')
         hist = meta.get('history', '')
         if was is None:
-            was_txt = 'missed' if hist.startswith('missed') else 'caught'
+            was_txt = 'caught' if hist.startswith('caught by the check as it was') else 'missed or inconclusive; strengthened'
         else:
             was_txt = {1: 'caught', 0: 'missed', 2: 'inconclusive'}.get(was['exit'], str(was['exit']))
         r = results.get(n)
